@@ -476,6 +476,11 @@ func (r *run) concCase() {
 		wg.Add(1)
 		go func(g int) {
 			defer wg.Done()
+			defer func() { // a panic escaping Engine.Serve: recorded (no spec action => rejected), the process survives
+				if p := recover(); p != nil {
+					r.emit("Panic", vtrace.Rec{"msg": fmt.Sprint(p), "conn": g + 1})
+				}
+			}()
 			for k := 0; k < c.Rounds; k++ {
 				n := g*c.Rounds + k
 				pick := func(i int) []string { return []string{c.Muts[(n*2+i)%len(c.Muts)]} }
